@@ -20,11 +20,16 @@ CONTROL = [0xc0, 0xc8, 0xd0, 0xd8, 0xc9, 0xd9, 0xe9, 0xc7, 0xcf, 0xd7, 0xdf, 0xe
 SAFE1 = [op for op in range(0x04, 0xc0) if cpugen.length(op) == 1 and op not in (0x76, 0x10, 0x18, 0x20, 0x28, 0x30, 0x38)]
 
 
-def halt_case(rng, ime, pend, op, idle, cb=None):
+def halt_case(rng, ime, pend, op, idle, cb=None, prefix=None):
     st = cpugen.structured_state(rng)
     pc = 0xc000
     flow = op in CONTROL or op in (0xc3, 0xc2, 0xca, 0xd2, 0xda, 0xcd, 0xc4, 0xcc, 0xd4, 0xdc, 0x18, 0x20, 0x28, 0x30, 0x38)
-    lines = (['mayexit'] if flow else []) + ['cpu.new', cpugen.set_line(st, pc), 'w %d 118' % pc]
+    lines = (['mayexit'] if flow else []) + ['cpu.new', cpugen.set_line(st, pc)]
+    if prefix is not None:
+        # EI / DI / NOP straight before HALT: HALT is reached with the master enable in transition
+        lines.append('w %d %d' % (pc, prefix))
+        pc += 1
+    lines.append('w %d 118' % pc)
     n = cpugen.length(op)
     operands = []
     if op == 0xcb:
@@ -41,6 +46,8 @@ def halt_case(rng, ime, pend, op, idle, cb=None):
     ie = {'pending': mask | rng.randrange(32), 'masked': (~mask) & 31 & rng.randrange(32), 'none': rng.randrange(32)}[pend]
     iff = {'pending': mask, 'masked': mask, 'none': 0}[pend]
     lines += ['w 65535 %d' % ie, 'w 65295 %d' % iff, 'cpu.ime %d' % ime]
+    if prefix is not None:
+        lines += ['cpu.cyc 1', 'cpu.get']
     lines += ['cpu.cyc 1', 'cpu.get']                 # HALT itself
     if idle:
         lines += ['cpu.cyc %d' % idle, 'cpu.get']
@@ -73,10 +80,18 @@ def generate(rng, tier):
             for cb in (rng.sample(range(256), 12) if not (ime == 0 and pend == 'pending') else []):
                 cases.append(('h%d' % n, halt_case(rng, ime, pend, 0xcb, rng.choice(idles), cb)))
                 n += 1
+    # EI / DI / NOP immediately before HALT, every IME x request combination
+    npre = 0
+    for rep in range(2 if tier == 'quick' else 12):
+        for prefix in (0xfb, 0xf3, 0x00):
+            for ime in (0, 1):
+                for pend in ('pending', 'masked', 'none'):
+                    cases.append(('p%d' % npre, halt_case(rng, ime, pend, rng.choice(SAFE1), rng.choice(idles[:6]), prefix=prefix)))
+                    npre += 1
     # every idle length 0..300 for HALT ; INC A
     for idle in range(0, 301 if tier == 'quick' else 2001):
         cases.append(('i%d' % idle, halt_case(rng, idle % 2, 'none', 0x3c, idle)))
-    info = dict(input_distribution=dict(halt_cases=n, idle_lengths=len(idles)),
+    info = dict(input_distribution=dict(halt_cases=n, prefixed_cases=npre, idle_lengths=len(idles)),
                 samples=[dict(case=cases[3][0], script=cases[3][1])])
     return cases, info
 
